@@ -22,6 +22,12 @@ def families(tier, seed):
                             which=which, vec=vec, seed=seed))
     for how in ("update_var", "node_values"):
         for vec in (False, True):
+            out.append(dict(tag=f"U28-complex-and-numpy-scalar-overrides/{how}", features=dict(complex_override=True, how=how),
+                            kind="complex_override", how=how, vec=vec))
+    for vec in (False, True):
+        out.append(dict(tag="U29-to_yaml-between-two-compilations", features=dict(yaml_between=True), kind="yaml_between", vec=vec))
+    for how in ("update_var", "node_values"):
+        for vec in (False, True):
             out.append(dict(tag=f"U26-integer-declared-parameter/{how}", features=dict(int_declared=True, how=how), kind="int_param", how=how, vec=vec))
     return out
 
@@ -75,7 +81,82 @@ def derived_edge_case(c):
     return dict(status="violated" if fails else "ok", fails=fails[:2])
 
 
+def complex_override_case(c):
+    """Complex-valued constants / initial values overridden per node (array over `all`) and on single nodes with numpy scalar
+    types: the compiled arguments, the initial state and the vector field carry exactly those values."""
+    import numpy as np
+    from pyrates import OperatorTemplate, NodeTemplate, CircuitTemplate
+    op = OperatorTemplate(name="zo", equations=["d/dt * z = (g - k)*z + u"], path=None,
+                          variables={"z": "output(complex)", "u": "input(complex)", "k": 1.5, "g": 0.5 + 0.0j})
+    nt = NodeTemplate(name="zn", operators=[op], path=None)
+    tpl = CircuitTemplate(name="zc", nodes={"p": nt, "q": nt, "r": nt}, edges=[("p/zo/z", "q/zo/u", None, {"weight": 0.25})])
+    g = np.array([0.5 + 1.0j, -2.0 + 0.5j, 1.0j])
+    z0 = np.array([0.3 - 0.1j, 0.2j, -0.6 + 0.0j])
+    k = np.array([1.5, 1.5, 1.5])
+    kw = dict(step_size=1e-3, vectorize=c["vec"], verbose=False, float_precision="complex128", file_name="cplx_mod")
+    if c["how"] == "update_var":
+        tpl.update_var(node_vars={"all/zo/g": g, "all/zo/z": z0})
+        tpl.update_var(node_vars={"q/zo/k": np.float64(2.75), "r/zo/g": np.complex128(0.125 - 0.5j)})
+    else:
+        kw["node_values"] = {"all/zo/g": g, "all/zo/z": z0, "q/zo/k": np.float64(2.75), "r/zo/g": np.complex128(0.125 - 0.5j)}
+    g = g.copy()
+    g[2], k[1] = 0.125 - 0.5j, 2.75
+    f, a, names, m = tpl.get_run_func("vf", **kw)
+    am = dict(zip(names, a))
+    fails = []
+
+    def cmp(what, obs, exp):
+        obs, exp = np.asarray(obs, dtype=complex).ravel(), np.asarray(exp, dtype=complex).ravel()
+        if obs.shape != exp.shape or not np.allclose(obs, exp, rtol=1e-12, atol=1e-12):
+            fails.append(dict(clause=f"complex / numpy-scalar override reaches the compiled function unchanged: {what}",
+                              observed=[str(x) for x in obs], expected=[str(x) for x in exp]))
+    got_g = np.concatenate([np.asarray(v, dtype=complex).ravel() for n, v in am.items() if n.endswith("/zo/g")])
+    got_k = np.concatenate([np.asarray(v, dtype=complex).ravel() for n, v in am.items() if n.endswith("/zo/k")])
+    cmp("g (p, q, r)", got_g, g)
+    cmp("k (p, q, r)", got_k, k)
+    cmp("initial state", am["y"], z0)
+    cmp("vector field at the initial state", f(*a), (g - k) * z0 + np.array([0.0, 0.25 * z0[0], 0.0]))
+    return dict(status="violated" if fails else "ok", fails=fails[:3])
+
+
+def yaml_between_compiles_case(c):
+    """Overrides given through the node-template route on a SHARED OperatorTemplate; the circuit is compiled, written with
+    to_yaml and compiled again: every node keeps exactly its own values (both compilations are compared with the spec)."""
+    import json
+    import numpy as np
+    from pyrates import OperatorTemplate, NodeTemplate, CircuitTemplate
+    from rtc import mdl, oracle
+    op = OperatorTemplate(name="o", equations=["d/dt * x = (k - x)/tau + u"], path=None,
+                          variables={"x": "output(0.1)", "u": "input(0.0)", "k": 1.5, "tau": 2.0})
+    over = {"a": {"tau": 5.0}, "b": {}, "c": {"k": 3.0, "x": 0.7}, "d": {"k": -1.0}}
+    nodes = {n: NodeTemplate(name=f"nt_{n}", operators={op: dict(o)} if o else [op], path=None) for n, o in over.items()}
+    tpl = CircuitTemplate(name="yc", nodes=nodes, edges=[("a/o/x", "b/o/u", None, {"weight": 0.5}), ("c/o/x", "d/o/u", None, {"weight": -0.5})])
+    exp = {n: dict(dict(k=1.5, tau=2.0, x=0.1), **o) for n, o in over.items()}
+    fails = []
+    for stage in ("before to_yaml", "after to_yaml"):
+        f, a, names, m = tpl.get_run_func("vf", step_size=1e-3, vectorize=c["vec"], verbose=False, float_precision="float64",
+                                          file_name="yb_mod", in_place=False, clear=True)
+        am = dict(zip(names, a))
+        for v in ("k", "tau"):
+            got = np.concatenate([np.asarray(val, dtype=float).ravel() for n, val in am.items() if n.endswith(f"/o/{v}")])
+            want = np.array([exp[n][v] for n in over])
+            if got.shape != want.shape or not np.allclose(got, want, rtol=0, atol=1e-12):
+                fails.append(dict(clause=f"{stage}: parameter {v} of the nodes (a, b, c, d) built on one shared operator",
+                                  observed=got.tolist(), expected=want.tolist()))
+        y0 = np.asarray(am["y"], dtype=float).ravel()
+        want = np.array([exp[n]["x"] for n in over])
+        if y0.shape != want.shape or not np.allclose(y0, want, atol=1e-12):
+            fails.append(dict(clause=f"{stage}: initial state of the nodes (a, b, c, d)", observed=y0.tolist(), expected=want.tolist()))
+        if stage == "before to_yaml":
+            tpl.to_yaml("yb_dump")
+    return dict(status="violated" if fails else "ok", fails=fails[:3])
+
+
 def case_fn(c):
+    if c["kind"] == "complex_override":
+        return complex_override_case(c)
+    if c["kind"] == "yaml_between":
+        return yaml_between_compiles_case(c)
     if c["kind"] == "int_param":
         return int_param_case(c)
     if c["kind"] == "derived_edge":
